@@ -34,12 +34,15 @@ func Normalise(e Event, strictResume bool) Event {
 		return Event{"ev": "AuthRan", "ran": s(e, "ran"), "ok": b(e, "ok", false)}
 	case "HandshakeDone":
 		var methods []string
-		if ms, ok := e["methods"].([]any); ok {
+		switch ms := e["methods"].(type) {
+		case []any: // decoded from a trace file
 			for _, m := range ms {
 				if x, ok := m.(string); ok {
 					methods = append(methods, x)
 				}
 			}
+		case []string: // collected in memory
+			methods = append(methods, ms...)
 		}
 		if methods == nil {
 			methods = []string{}
